@@ -25,6 +25,11 @@ pub trait Math: Sized {
 }
 /// a `&mut math` call that does not evaluate the density
 pub open spec fn no_eval<M: Math>(m0: &M, m1: &M) -> bool { m1.evals() == m0.evals() && m1.fatal_evals() == m0.fatal_evals() }
+/// exactly one density evaluation; if it failed unrecoverably the call returned Err (quantifier-free form of
+/// "exists fatal. one_eval(m0, m1, fatal) && (fatal ==> is_err)")
+pub open spec fn one_eval_err<M: Math>(m0: &M, m1: &M, is_err: bool) -> bool {
+    m1.evals() == m0.evals() + 1 && (m1.fatal_evals() == m0.fatal_evals() || (m1.fatal_evals() == m0.fatal_evals() + 1 && is_err))
+}
 /// a `&mut math` call that evaluates the density exactly once; `fatal`: it ended in an unrecoverable error
 pub open spec fn one_eval<M: Math>(m0: &M, m1: &M, fatal: bool) -> bool {
     m1.evals() == m0.evals() + 1 && m1.fatal_evals() == m0.fatal_evals() + (if fatal { 1nat } else { 0nat })
@@ -193,7 +198,7 @@ pub trait Hamiltonian<M: Math>: Sized {
     /// one density evaluation at `init`; ANY failure of it (recoverable or not, non-finite value/gradient) is an Err
     fn init_state(&mut self, math: &mut M, init: &[F]) -> (r: core::result::Result<State<M, Self::Point>, NutsError>)
         ensures final(math).dim_spec() == old(math).dim_spec(), final(self).trans() == old(self).trans(), final(self).step() == old(self).step(),
-                exists|fatal: bool| #[trigger] one_eval(old(math), final(math), fatal) && (fatal ==> r is Err);
+                one_eval_err(old(math), final(math), r is Err);
     /// an independent copy of an already evaluated state (no density evaluation)
     fn copy_state(&mut self, math: &mut M, state: &State<M, Self::Point>) -> (r: State<M, Self::Point>)
         ensures final(math).dim_spec() == old(math).dim_spec(), no_eval(old(math), final(math)),
